@@ -570,6 +570,12 @@ func c20RegSchema(name, variant string) avro.Schema {
 		}
 		return avro.Schema{Type: "long"}
 	case "Tag":
+		switch variant {
+		case "nullfirst":
+			return avro.Schema{Type: "union", Union: []avro.Schema{{Type: "null"}, {Type: "string"}}}
+		case "nullsecond":
+			return avro.Schema{Type: "union", Union: []avro.Schema{{Type: "string"}, {Type: "null"}}}
+		}
 		return avro.Schema{Type: "string"}
 	case "Pair":
 		s, err := avro.SchemaForType(pairShadow{})
